@@ -65,6 +65,34 @@ def StoreAtNode (nm : List String → String) (O : Oracle) (ρ : Store) (n : SNo
 
 def addFork (d : String × List Idx) (n : SNode) : SNode := { n with forks := d :: n.forks }
 
+theorem find_key_of_nodup {α : Type} (l : List α) (key : α → String) (hn : (l.map key).Nodup)
+    (a : α) (ha : a ∈ l) : l.find? (fun b => key b == key a) = some a := by
+  induction l with
+  | nil => cases ha
+  | cons q qs ih =>
+    simp only [List.map_cons, List.nodup_cons] at hn
+    simp only [List.find?_cons]
+    cases ha with
+    | head => simp
+    | tail _ ha' =>
+      have hne : key q ≠ key a := by
+        intro e
+        apply hn.1
+        rw [e]
+        exact List.mem_map_of_mem ha'
+      have : (key q == key a) = false := by simpa using hne
+      rw [this]
+      exact ih hn.2 ha'
+
+/-- the store built from the oracle and the nodes satisfies the node-wise description, when
+the nodes have distinct names -/
+theorem storeOfNodes_ok (nm : List String → String) (nodes : List SNode) (O : Oracle)
+    (hn : (nodes.map fun n => nm n.path).Nodup) :
+    ∀ n ∈ nodes, StoreAtNode nm O (storeOfNodes nm nodes O) n := by
+  intro n hmem f
+  simp only [storeOfNodes]
+  rw [find_key_of_nodup nodes (fun n => nm n.path) hn n hmem]
+
 /-! ## relations carried through the induction -/
 
 def ArgsRelT (st : StructTable) (F : Nat) (ρ : Store) (pins : List Param) (args : J) (cins : RBMap) : Prop :=
